@@ -22,7 +22,7 @@ ASSUMPTIONS = ['SHA-384 collision resistance (a writer is model-accepted iff its
                'a final chunk that straddles the declared length is not a complete correct copy (the real client caps chunks)',
                'disk-write failures inside _write_blob are out of scope (not a peer behaviour)']
 REQUIRED_HITS = ['L1.second_download_checked', 'S1.steps_checked', 'S1.bad_only_case', 'L1.checked', 'L1.multi_writer', 'S2.callback_seen',
-                 'schedule.same_iteration_double_win', 'kind.flip', 'kind.trunc_closed', 'kind.overlong_straddle',
+                 'schedule.same_iteration_double_win', 'schedule.writer_reopened_by_same_peer_in_same_iteration', 'kind.flip', 'kind.trunc_closed', 'kind.overlong_straddle',
                  'kind.unrelated', 'kind.correct_then_closed', 'decl.length_only_claimed_by_peer', 'kind.overlong_later', 'decl.too_big', 'decl.zero', 'decl.unknown']
 MAX = 2 * 1024 * 1024
 KINDS = ['correct', 'flip', 'trunc_silent', 'trunc_closed', 'overlong_later', 'overlong_straddle', 'unrelated',
@@ -322,7 +322,10 @@ async def _run(rec, r, content, kinds, decl, blobkind, steps, case):
             third = max(1, len(chunks[0]) // 3) if len(chunks) == 1 else None
             data = b''.join(chunks)
             chunks = [data[:10], data[10:20], data[20:]]
-        plans.append({'kind': kind, 'chunks': chunks, 'close_after': close_after, 'style': style, 'next': 0})
+        plans.append({'kind': kind, 'chunks': chunks, 'close_after': close_after, 'style': style, 'next': 0, 'reopen_at': None})
+        if case.get('fam') == 'rand' and len(kinds) >= 2 and kind not in ('late_correct',) and r.random() < 0.12:
+            # the peer's connection drops and the same peer is asked again before the loop has run the old writer's callbacks
+            plans[-1]['reopen_at'] = r.randrange(0, len(chunks))
         try:
             writers.append(blob.get_blob_writer('10.0.0.%d' % (i + 1), 3333))
         except OSError as e:   # cannot happen for distinct peers on a fresh blob
@@ -363,6 +366,7 @@ async def _run(rec, r, content, kinds, decl, blobkind, steps, case):
     accepted_step = None
     pre_accept_writers = list(range(len(writers)))
     exc_types = set()
+    reopened = set()
     step_no = 0
 
     def do_write(i):
@@ -370,6 +374,18 @@ async def _run(rec, r, content, kinds, decl, blobkind, steps, case):
         p = plans[i]
         if p['next'] >= len(p['chunks']):
             return
+        if p['reopen_at'] == p['next'] and accepted_any:
+            p['reopen_at'] = None       # a writer opened after the blob was completed is a new request, not a pending writer
+        if p['reopen_at'] == p['next']:
+            p['reopen_at'] = None
+            writers[i].close_handle()
+            try:
+                writers[i] = blob.get_blob_writer('10.0.0.%d' % (i + 1), 3333)
+                models[i] = ModelWriter(blob_hash)
+                reopened.add(i)
+                rec.hit('schedule.writer_reopened_by_same_peer_in_same_iteration')
+            except OSError:
+                exc_types.add('OSError@reopen')
         data = p['chunks'][p['next']]
         p['next'] += 1
         Lnow = blob.get_length()
@@ -496,8 +512,9 @@ async def _run(rec, r, content, kinds, decl, blobkind, steps, case):
             for i in pre_accept_writers:
                 w = writers[i]
                 if not w.closed() or not w.finished.done():
-                    rec.violation('C01/L1/pending-writer-not-shut-down',
-                                  f'writer {i} ({kinds[i]}) still open after another writer completed the blob',
+                    rec.violation('C01/L1/pending-writer-not-shut-down' + ('/reopened-by-same-peer-before-old-callbacks-ran' if i in reopened else ''),
+                                  f'writer {i} ({kinds[i]}{", second writer of a peer whose first one was closed in the same loop iteration" if i in reopened else ""}) '
+                                  f'still open after another writer completed the blob',
                                   {'kinds': kinds, 'closed': w.closed(), 'finished_done': w.finished.done()})
                     break
             if blob.writers:
